@@ -59,6 +59,8 @@ theorem conservation_step (s : St) (op : Op) (h : (step s op).2 ≠ .exc .runtim
     · exact (sockDiscard_spec s).1
   | feed evs =>
     simp only [step, fedBytes, tot, devBytes_append, List.append_nil, List.append_assoc]
+  | write d => simpa [step, fedBytes] using (doWrite_spec s d).1
+  | planOpen r => simp [step, fedBytes, tot]
 
 /-- **Conservation over every operation sequence and every oracle script**: as long as the OS does
 not drop a datagram, the bytes handed out or discarded (in call order), followed by the buffer,
@@ -105,8 +107,12 @@ theorem runtime_only_udp (s : St) (op : Op) (h : (step s op).2 = .exc .runtime) 
   refine Classical.byContradiction fun hk => ?_
   have hne : NoRt (step s op) := by
     cases op with
-    | «open» => simp only [step, doOpen, NoRt]; repeat' split
-                all_goals simp
+    | «open» =>
+      simp only [step, NoRt]
+      rcases doOpen_exc s with h | h | h | h <;> simp [h]
+    | write d => simp only [step, doWrite, NoRt]; repeat' split
+                 all_goals simp
+    | planOpen r => simp [step, NoRt]
     | close => simp only [step, doClose, NoRt]; split <;> simp
     | read n t => simp only [step]; split; exact serialRead_noRt s n t; exact sockRead_noRt s n t hk
     | readUntil term t => simp only [step]; split; exact serialUntil_noRt s term t; exact sockUntil_noRt s term t hk
@@ -124,8 +130,9 @@ theorem runtime_only_udp (s : St) (op : Op) (h : (step s op).2 = .exc .runtime) 
 /-- the transport kind never changes -/
 theorem kind_step (s : St) (op : Op) : (step s op).1.kind = s.kind := by
   cases op with
-  | «open» => simp only [step, doOpen]; repeat' split
-              all_goals rfl
+  | «open» => exact (doOpen_cfg s).1
+  | write d => exact (doWrite_spec s d).2.1
+  | planOpen r => rfl
   | close => simp only [step, doClose]; split <;> rfl
   | read n t => exact (step_readSpec s (.read n t) rfl).same.kind
   | readUntil term t => exact (step_readSpec s (.readUntil term t) rfl).same.kind
@@ -153,8 +160,9 @@ theorem conservation_stream (ops : List Op) : ∀ (s : St), s.kind ≠ .udp →
 /-- the packet-size constants never change -/
 theorem config_step (s : St) (op : Op) : (step s op).1.minP = s.minP ∧ (step s op).1.maxP = s.maxP := by
   cases op with
-  | «open» => simp only [step, doOpen]; repeat' split
-              all_goals exact ⟨rfl, rfl⟩
+  | «open» => exact ⟨(doOpen_cfg s).2.1, (doOpen_cfg s).2.2.1⟩
+  | write d => exact ⟨(doWrite_spec s d).2.2.1, (doWrite_spec s d).2.2.2.1⟩
+  | planOpen r => exact ⟨rfl, rfl⟩
   | close => simp only [step, doClose]; split <;> exact ⟨rfl, rfl⟩
   | read n t => exact ⟨(step_readSpec s (.read n t) rfl).same.minP, (step_readSpec s (.read n t) rfl).same.maxP⟩
   | readUntil term t =>
@@ -192,10 +200,15 @@ theorem fits_step (s : St) (op : Op) (hk : s.kind = .udp) (hf : Fits s)
     exact hf ev (hd.mem hev)
   cases op with
   | «open» =>
-    refine ⟨by simp only [step, doOpen]; repeat' split
-               all_goals simp, key ?_⟩
-    simp only [step, doOpen]; repeat' split
-    all_goals exact DropOf.of_dev_eq rfl
+    refine ⟨?_, key (DropOf.of_dev_eq (doOpen_cfg s).2.2.2.1)⟩
+    simp only [step]
+    rcases doOpen_exc s with h | h | h | h <;> simp [h]
+  | write d =>
+    refine ⟨?_, key (DropOf.of_dev_eq (doWrite_spec s d).2.2.2.2.2.1)⟩
+    simp only [step, doWrite]; repeat' split
+    all_goals simp
+  | planOpen r =>
+    exact ⟨by simp [step], key (DropOf.of_dev_eq rfl)⟩
   | close =>
     refine ⟨by simp only [step, doClose]; split <;> simp, key ?_⟩
     simp only [step, doClose]; split <;> exact DropOf.of_dev_eq rfl
@@ -255,8 +268,14 @@ theorem exhausted_only_when_script_empty (s : St) (op : Op) (h : (step s op).2 =
   have he : step s op = ((step s op).1, .exc .exhausted) := by rw [← h]
   generalize (step s op).1 = s' at *
   cases op with
-  | «open» => simp only [step, doOpen] at he; repeat' split at he
-              all_goals simp at he
+  | «open» =>
+    have := doOpen_exc s
+    simp only [step] at he
+    rw [he] at this
+    simp at this
+  | write d => simp only [step, doWrite] at he; repeat' split at he
+               all_goals simp at he
+  | planOpen r => simp [step] at he
   | close => simp only [step, doClose] at he; split at he <;> simp at he
   | read n t => simp only [step] at he; split at he; exact serialRead_exh he; exact sockRead_exh he
   | readUntil term t => simp only [step] at he; split at he; exact serialUntil_exh he; exact sockUntil_exh he
@@ -429,12 +448,12 @@ interactions and the clock exactly as they were, and either raises `QMI_InvalidO
 with the state unchanged, or (socket `read_until` only, which searches the buffer before checking
 the flag) returns bytes that were already in the buffer. -/
 theorem closed_never_touches_device (s : St) (op : Op) (hc : s.isOpen = false)
-    (hop : op.isRead = true ∨ op = .discardRead ∨ op = .close) :
+    (hop : op.isRead = true ∨ op = .discardRead ∨ op = .close ∨ ∃ d, op = .write d) :
     (step s op).1.dev = s.dev ∧ (step s op).1.io = s.io ∧ (step s op).1.clock = s.clock ∧
     (step s op).1.isOpen = false ∧
     (step s op = (s, .exc .invalidOp) ∨
       ∃ term t bs, op = .readUntil term t ∧ s.kind ≠ .serial ∧ (step s op).2 = .ret bs ∧ bs <+: s.buf) := by
-  rcases hop with hop | rfl | rfl
+  rcases hop with hop | rfl | rfl | ⟨d, rfl⟩
   · cases op with
     | read n t =>
       have : step s (.read n t) = (s, .exc .invalidOp) := by
@@ -465,35 +484,70 @@ theorem closed_never_touches_device (s : St) (op : Op) (hc : s.isOpen = false)
     rw [this]; exact ⟨rfl, rfl, rfl, hc, Or.inl rfl⟩
   · have : step s .close = (s, .exc .invalidOp) := by simp [step, doClose, hc]
     rw [this]; exact ⟨rfl, rfl, rfl, hc, Or.inl rfl⟩
+  · have : step s (.write d) = (s, .exc .invalidOp) := by simp [step, doWrite, hc]
+    rw [this]; exact ⟨rfl, rfl, rfl, hc, Or.inl rfl⟩
 
-/-- `open` and `close` are refused in the wrong state (state unchanged) and flip the flag in the
-right one. -/
+/-- `open` and `close` are refused in the wrong state (state unchanged) and flip the flag in the right
+one; **a failed `open` leaves the transport closed**: whatever the OS answers (`OpenRes`), the outcome of
+`open` on a closed transport is success, `QMI_TimeoutException` or a passed-through `OSError`, the flag is
+set exactly on success, and the device script, the clock and the write log are untouched. -/
 theorem open_close_state_machine (s : St) :
     (s.isOpen = true → step s .open = (s, .exc .invalidOp)) ∧
-    (s.isOpen = false → (step s .open).2 = .unit ∧ (step s .open).1.isOpen = true ∧ (step s .open).1.dev = s.dev) ∧
+    (s.isOpen = false →
+        ((step s .open).2 = .unit ∨ (step s .open).2 = .exc .timeout ∨ (step s .open).2 = .exc .osError) ∧
+        (step s .open).1.isOpen = decide ((step s .open).2 = .unit) ∧
+        (step s .open).1.dev = s.dev ∧ (step s .open).1.clock = s.clock ∧ (step s .open).1.wlog = s.wlog) ∧
     (s.isOpen = false → step s .close = (s, .exc .invalidOp)) ∧
     (s.isOpen = true → (step s .close).2 = .unit ∧ (step s .close).1.isOpen = false ∧
                         (step s .close).1.buf = s.buf ∧ (step s .close).1.dev = s.dev) := by
   refine ⟨?_, ?_, ?_, ?_⟩
   · intro h; simp [step, doOpen, h]
-  · intro h; simp only [step, doOpen, h, Bool.false_eq_true, if_false]; split <;> exact ⟨rfl, rfl, rfl⟩
+  · intro h
+    have hf := doOpen_flag s
+    have hc := doOpen_cfg s
+    have he := doOpen_exc s
+    simp only [step]
+    refine ⟨?_, by rw [hf, h]; simp, hc.2.2.2.1, hc.2.2.2.2.1, hc.2.2.2.2.2⟩
+    rcases he with he | he | he | he
+    · exact Or.inl he
+    · exfalso
+      simp only [doOpen, h, Bool.false_eq_true, if_false] at he
+      cases s.kind <;> cases s.openPlan.headD .ok <;> simp at he
+    · exact Or.inr (Or.inl he)
+    · exact Or.inr (Or.inr he)
   · intro h; simp [step, doClose, h]
   · intro h; simp [step, doClose, h]
 
-/-- the open flag as a two-state machine over the op sequence -/
-def flagAfter (b : Bool) : Op → Bool
-  | .open => true
+/-- `open` on a closed transport succeeds whenever the OS lets it (`OpenRes.ok`, which is also the default
+when nothing else is planned) — in particular after any number of failed attempts. -/
+theorem open_succeeds_when_os_allows (s : St) (hc : s.isOpen = false) (hp : s.openPlan.headD .ok = .ok) :
+    (step s .open).2 = .unit ∧ (step s .open).1.isOpen = true := by
+  simp only [step, doOpen, hc, Bool.false_eq_true, if_false, hp]
+  cases s.kind <;> exact ⟨rfl, rfl⟩
+
+/-- **a failed `open` can be retried**: after a refused / timed-out / failed `open` the transport is
+closed (so `close` is refused and `open` is accepted again), and the retry succeeds as soon as the OS
+allows it. -/
+theorem failed_open_can_be_retried (s : St) (hc : s.isOpen = false) (hf : (step s .open).2 ≠ .unit)
+    (hp : (step s .open).1.openPlan.headD .ok = .ok) :
+    (step s .open).1.isOpen = false ∧
+    step (step s .open).1 .close = ((step s .open).1, .exc .invalidOp) ∧
+    (step (step s .open).1 .open).2 = .unit ∧ (step (step s .open).1 .open).1.isOpen = true := by
+  have h1 : (step s .open).1.isOpen = false := by
+    rw [((open_close_state_machine s).2.1 hc).2.1]; simpa using hf
+  exact ⟨h1, (open_close_state_machine _).2.2.1 h1, open_succeeds_when_os_allows _ h1 hp⟩
+
+/-- the open flag as a two-state machine driven by the op and its outcome -/
+def flagAfter (b : Bool) (op : Op) (o : Out) : Bool :=
+  match op with
+  | .open => b || decide (o = .unit)
   | .close => false
   | _ => b
 
-/-- No other call ever changes the open flag: after any run it is what the open/close sub-sequence says. -/
-theorem isOpen_step (s : St) (op : Op) : (step s op).1.isOpen = flagAfter s.isOpen op := by
+/-- No other call ever changes the open flag. -/
+theorem isOpen_step (s : St) (op : Op) : (step s op).1.isOpen = flagAfter s.isOpen op (step s op).2 := by
   cases op with
-  | «open» =>
-    simp only [step, doOpen, flagAfter]
-    split
-    · assumption
-    · split <;> rfl
+  | «open» => exact doOpen_flag s
   | close =>
     simp only [step, doClose, flagAfter]
     split
@@ -508,11 +562,76 @@ theorem isOpen_step (s : St) (op : Op) : (step s op).1.isOpen = flagAfter s.isOp
     · exact (serialDiscard_spec s).2.isOpen
     · exact (sockDiscard_spec s).2.isOpen
   | feed evs => rfl
+  | write d => exact (doWrite_spec s d).2.2.2.2.1
+  | planOpen r => rfl
 
-theorem isOpen_run (ops : List Op) : ∀ (s : St), (run s ops).1.isOpen = ops.foldl flagAfter s.isOpen := by
+def flagRun : Bool → List Op → List Out → Bool
+  | b, op :: ops, o :: os => flagRun (flagAfter b op o) ops os
+  | b, _, _ => b
+
+/-- after any run the flag is what the open/close sub-sequence and the outcomes of the `open`s say -/
+theorem isOpen_run (ops : List Op) : ∀ (s : St), (run s ops).1.isOpen = flagRun s.isOpen ops (run s ops).2 := by
   induction ops with
   | nil => intro s; rfl
-  | cons op os ih => intro s; simp only [run, List.foldl_cons]; rw [ih, isOpen_step]
+  | cons op os ih => intro s; simp only [run, flagRun]; rw [ih, isOpen_step]
+
+/-! ## write: everything handed to the device, in order; refused when closed -/
+
+/-- `write(d)` on an open transport hands exactly `d` to the device as one unit (appended to the write
+log), succeeds, and does not touch the read side (buffer, device script, ghost log, clock). On a closed
+transport it is refused with the state unchanged (`closed_never_touches_device`). -/
+theorem write_spec (s : St) (d : Bytes) (ho : s.isOpen = true) :
+    (step s (.write d)).2 = .unit ∧ (step s (.write d)).1.wlog = s.wlog ++ [d] ∧
+    (step s (.write d)).1.buf = s.buf ∧ (step s (.write d)).1.dev = s.dev ∧
+    (step s (.write d)).1.log = s.log ∧ (step s (.write d)).1.clock = s.clock ∧
+    (step s (.write d)).1.isOpen = true := by
+  simp only [step, doWrite, ho, Bool.not_true, Bool.false_eq_true, if_false]
+  cases s.kind <;> exact ⟨rfl, rfl, rfl, rfl, rfl, rfl, rfl⟩
+
+/-- what one op adds to the write log, judged by its outcome -/
+def writtenBy (op : Op) (o : Out) : List Bytes :=
+  match op, o with
+  | .write d, .unit => [d]
+  | _, _ => []
+
+def writtenRun : List Op → List Out → List Bytes
+  | op :: ops, o :: os => writtenBy op o ++ writtenRun ops os
+  | _, _ => []
+
+/-- no call other than a successful `write` ever changes what the device was sent -/
+theorem wlog_step (s : St) (op : Op) : (step s op).1.wlog = s.wlog ++ writtenBy op (step s op).2 := by
+  cases op with
+  | «open» =>
+    have := (doOpen_cfg s).2.2.2.2.2
+    simp only [step, writtenBy, List.append_nil]; exact this
+  | close => simp only [step, doClose, writtenBy]; split <;> simp
+  | read n t => simpa [writtenBy] using (step_readSpec s (.read n t) rfl).same.wlog
+  | readUntil term t => simpa [writtenBy] using (step_readSpec s (.readUntil term t) rfl).same.wlog
+  | readUntilTimeout n t => simpa [writtenBy] using (step_readSpec s (.readUntilTimeout n t) rfl).same.wlog
+  | discardRead =>
+    simp only [step, writtenBy, List.append_nil]
+    split
+    · exact (serialDiscard_spec s).2.wlog
+    · exact (sockDiscard_spec s).2.wlog
+  | feed evs => simp [step, writtenBy]
+  | planOpen r => simp [step, writtenBy]
+  | write d =>
+    simp only [step, doWrite]
+    split
+    · simp [writtenBy]
+    · cases s.kind <;> simp [writtenBy]
+
+/-- **All bytes handed to the device, in order**: after any op sequence the device has received exactly
+the payloads of the `write` calls that succeeded, one unit per call, in call order — nothing dropped,
+merged, duplicated or reordered, and nothing from a refused `write`. -/
+theorem written_run (ops : List Op) : ∀ (s : St),
+    (run s ops).1.wlog = s.wlog ++ writtenRun ops (run s ops).2 := by
+  induction ops with
+  | nil => intro s; simp [run, writtenRun]
+  | cons op os ih =>
+    intro s
+    simp only [run, writtenRun]
+    rw [ih, wlog_step, List.append_assoc]
 
 /-! ## non-vacuity: concrete reachable states exercising the hypotheses -/
 
